@@ -158,6 +158,24 @@ def check_one(arg):
     lab = lambda l: re.sub(r"^(\d+)\s+", r"\1 ", l.strip())   # noqa
     if ref_lines is not None and [lab(l) for l in out_lines] != [lab(l) for l in ref_lines]:
         fails.append(("text_differs", "regenerated Fortran differs once directive lines are removed [%s]" % feats, rep))
+    if v % 2 == 0:
+        # the same source through a FortranFileReader: the same tree
+        import os
+        import shutil
+        import tempfile
+        d = tempfile.mkdtemp(prefix="verif_c14_")
+        try:
+            pth = os.path.join(d, "prog.F90")
+            with open(pth, "w") as fh:
+                fh.write(src)
+            rdf = fp.FortranFileReader(pth, ignore_comments=not keep)
+            rdf.set_format(fp.FortranFormat(True, False))
+            of = fp.parse(src, std=std, rd=rdf)
+            if of.kind != "tree" or fp.canon_repr(of.tree) != fp.canon_repr(o.tree):
+                fails.append(("file_reader_differs", "FortranFileReader gives %s, a tree different from the string reader's [%s]"
+                              % (of.kind, feats), dict(rep, reader="file")))
+        finally:
+            shutil.rmtree(d, ignore_errors=True)
     return fails
 
 
